@@ -290,15 +290,18 @@ pub fn run_daemon_case(ctx: &mut Ctx, c: &DaemonCase) -> Result<(), String> {
     }
 }
 
-pub fn run_daemon_part(ctx: &mut Ctx) {
-    let n = ctx.tier.pick(3000u32, 60_000u32);
-    let strat = (
+pub fn daemon_case_strategy() -> impl Strategy<Value = DaemonCase> {
+    (
         any::<bool>(),
         prop_oneof![
             3 => proptest::collection::vec(msg_strategy(), 1..30),
             1 => related_sequence(),
         ],
     )
-        .prop_map(|(rwlock, msgs)| DaemonCase { rwlock, msgs });
-    ctx.prop_check("daemon_sequences", n, strat, |ctx, c| run_daemon_case(ctx, c));
+        .prop_map(|(rwlock, msgs)| DaemonCase { rwlock, msgs })
+}
+
+pub fn run_daemon_part(ctx: &mut Ctx) {
+    let n = ctx.tier.pick(3000u32, 60_000u32);
+    ctx.prop_check("daemon_sequences", n, daemon_case_strategy(), |ctx, c| run_daemon_case(ctx, c));
 }
